@@ -123,7 +123,7 @@ def run_tlc(module, cfg=None, env=None, workers=1, timeout=3600, extra=(), simul
     """Run TLC on spec/<module>.tla. Returns dict(out, wall_s, states, distinct, ok)."""
     work = tempfile.mkdtemp(prefix="mxv_tlc_")
     try:
-        cmd = ["java", "-XX:+UseParallelGC", "-Xmx" + heap, "-cp", JAR_CP, "tlc2.TLC",
+        cmd = ["java", "-XX:+UseParallelGC", "-Xss512m", "-Xmx" + heap, "-cp", JAR_CP, "tlc2.TLC",
                "-workers", str(workers), "-metadir", os.path.join(work, "meta"),
                "-noGenerateSpecTE"]
         if cfg:
@@ -178,8 +178,12 @@ def validate_traces(traces, module="MxTrace", cfg="MxTrace.cfg", timeout=3600, k
         r = run_tlc(module, cfg=cfg, env={"TRACE_FILE": path}, workers=1, timeout=timeout)
         v = verdicts(r["out"])
         if len(v) != len(traces):
-            raise TLCError("TLC produced %d verdicts for %d traces:\n%s" % (
-                len(v), len(traces), r["out"][-3000:]))
+            out = r["out"]
+            i = out.find("Error:")
+            shutil.copy(path, "/tmp/mxv_failed_batch.json")
+            raise TLCError("TLC produced %d verdicts for %d traces (batch kept at "
+                           "/tmp/mxv_failed_batch.json):\n%s" % (
+                               len(v), len(traces), out[max(0, i - 200):i + 2500]))
         return v, r
     finally:
         if keep:
